@@ -94,3 +94,33 @@ Definition dev2 (c : Q) (t : tree) : Q := (fst t - c) * (fst t - c).
 Definition avg (ts : list tree) : Q := sumf f_m ts / nQ ts.                              (* average of the tree means *)
 Definition avg_leaf_var (minv : Q) (ts : list tree) : Q := sumf (f_v minv) ts / nQ ts.    (* average (floored) within-leaf variance *)
 Definition var_of_means (ts : list tree) : Q := sumf (dev2 (avg ts)) ts / nQ ts.         (* variance of the tree means *)
+
+(* ---- ONE surrogate object used repeatedly (fit / predict / set_params / warm start / refilled query buffer).
+   The code keeps no state between calls besides estimators_ and the constructor parameters, so the state of the
+   model is (min_variance, oracle values of the current trees at the current query point).  Operations that change
+   what the oracle says carry the new oracle values. ---- *)
+Inductive op :=
+| OPredict (r : request)        (* predict(X), predict(X, return_std=True), predict(X, True, True) *)
+| ORefit (ts : list tree)       (* fit() again on the same object: the trees are replaced *)
+| OWarm (extra : list tree)     (* warm_start=True, larger n_estimators, fit(): estimators_ is EXTENDED IN PLACE *)
+| OSetMinVar (minv : Q)         (* set_params(min_variance=...) / attribute assignment *)
+| ORequery (ts : list tree)     (* the caller refills its query buffer in place: the same trees seen at another point *)
+| OReorder (ts : list tree).    (* n_jobs changed: the threads take the lock in another order *)
+
+Definition state := (Q * list tree)%type.
+
+Definition step (s : state) (o : op) : state * list (list Q) :=
+  match o with
+  | OPredict r => (s, [predict r (fst s) (snd s)])
+  | ORefit ts => ((fst s, ts), [])
+  | OWarm extra => ((fst s, snd s ++ extra), [])
+  | OSetMinVar minv => ((minv, snd s), [])
+  | ORequery ts => ((fst s, ts), [])
+  | OReorder ts => ((fst s, ts), [])
+  end.
+
+Fixpoint run (s : state) (ops : list op) : state * list (list Q) :=
+  match ops with
+  | [] => (s, [])
+  | o :: rest => let (s1, out1) := step s o in let (s2, out2) := run s1 rest in (s2, out1 ++ out2)
+  end.
